@@ -1,7 +1,7 @@
 (* C13 — the buffered connection behaves as a lossless FIFO byte stream (reader spec). *)
 From Coq Require Import String.
 From Coq Require Import List Strings.Byte NArith Bool Arith.
-Require Import Bytes Show Rd RdProofs LinkBuf LinkBufProofs.
+Require Import Bytes Show Rd RdProofs LinkBuf LinkBufProofs OutBuf OutBufProofs.
 Import ListNotations.
 
 (* `rd` is the reader specification every HTTP model is written against: a byte queue fed by a
@@ -70,6 +70,27 @@ Print Assumptions C13_linkbuf_peek.
 (* Len() is the number of buffered, unconsumed bytes in every reachable state: field inv_len of Inv *)
 Theorem C13_len_is_buffered_unconsumed : forall s, Inv s -> llen s = length (unread s).
 Proof. exact inv_len. Qed.
+
+(* ---- the writer side as it is built (Model/OutBuf.v; unit c13.outbuf compares the node structure and the
+   bytes the peer received after every operation) ----
+   For EVERY sequence of Malloc (reserve + fill) / WriteBinary / Flush: by the time a Flush returns the peer
+   has received exactly the concatenation of everything written, in order, and nothing is left buffered. *)
+Theorem C13_flush_delivers_everything_written : forall ops : list wop,
+  sent (wrun (ops ++ [WFlush]) ob_init) = concat (map payload ops) /\ pending (wrun (ops ++ [WFlush]) ob_init) = [].
+Proof. exact flush_delivers_everything. Qed.
+Print Assumptions C13_flush_delivers_everything_written.
+
+(* at every moment: received ++ still buffered = everything written; and the invariant (every node within its
+   capacity, the room recorded in outputBuffer.len really there) holds in every reachable state *)
+Theorem C13_writer_fifo : forall (ops : list wop),
+  OInv (wrun ops ob_init) /\ sent (wrun ops ob_init) ++ pending (wrun ops ob_init) = concat (map payload ops).
+Proof. intros ops. exact (writer_fifo ops ob_init ob_init_inv). Qed.
+Print Assumptions C13_writer_fifo.
+
+Example C13_outbuf_nonvacuous :
+  ob_script [B "M3,W4096,M2,F,M1,F"; B "abc" ++ repeat x41 4096 ++ B "dez"] <> [] /\
+  sent (wrun [WMalloc (B "abc"); WWrite (repeat x41 4096); WMalloc (B "de"); WFlush] ob_init) = B "abc" ++ repeat x41 4096 ++ B "de".
+Proof. split; [vm_compute; discriminate|vm_compute; reflexivity]. Qed.
 
 Example C13_linkbuf_nonvacuous :
   lb_script [B "0"; B "P3,S2,X,B,L"; B "0ab"; B "0cde"] =
